@@ -3,7 +3,7 @@
 From Coq Require Import NArith ZArith List Bool.
 Import ListNotations.
 Require Import UV.Gen.Consts UV.Mcount.Model UV.Mcount.Forest UV.Mcount.PlainStep UV.Mcount.PlainProofs
-  UV.Mcount.Restore UV.Mcount.SelectSpec UV.Mcount.Select.
+  UV.Mcount.Restore UV.Mcount.SelectSpec UV.Mcount.Select UV.Mcount.Embed UV.Mcount.EmbedMore UV.Mcount.Check.
 Local Open Scope N_scope.
 
 (* The filter state after a function returns equals the state before it was called - for EVERY
@@ -83,3 +83,37 @@ Theorem C05_safe_pg_example :
                  true false 3 10 1024 [] PG).
 Proof. exact safe_pg_example. Qed.
 Print Assumptions C05_safe_pg_example.
+
+(* Proper nesting for EVERY option set without a trace_on/trace_off trigger (the property's own exception):
+   any trigger table (-F/-N/-C/-Z, depth=/time=/size=/trace), any -D/-t, both instrumentation shapes, from the
+   initial state, any complete call forest within --max-stack.  The recorded stream is the flattening of a
+   forest EMBEDDED in the call history ([emb]: calls may be left out, their callees are promoted; nothing is
+   invented, reordered or re-timed) with depth = number of open recorded calls - so every recorded call's
+   recorded ancestors are present.  Holds inside the known -pg leak class as well. *)
+Theorem C05_recorded_is_embedded_subhistory : forall c, no_switch c -> forall f,
+  all_ended f -> heights f <= max_stack c ->
+  exists g, emb g f /\ out (fst (exec c (flat_forest f) (init, []))) = flat_map (history 0) g.
+Proof. exact run_forest_emb. Qed.
+Print Assumptions C05_recorded_is_embedded_subhistory.
+
+Theorem C05_nested_any_configuration : forall c, no_switch c -> forall f,
+  all_ended f -> heights f <= max_stack c ->
+  scan 0 (out (fst (exec c (flat_forest f) (init, [])))) = Some 0.
+Proof. exact nested_any_cfg. Qed.
+Print Assumptions C05_nested_any_configuration.
+
+(* the executable checker applied to the implementation's streams decides exactly this statement *)
+Theorem C05_embedding_checker_exact : forall f l,
+  ok_emb f l = true <-> exists g, emb g f /\ l = map ideal (flat_map (history 0) g).
+Proof. exact ok_emb_exact. Qed.
+Print Assumptions C05_embedding_checker_exact.
+
+(* non-vacuity: an option set with -F, -N, depth=, time=, size= and trace triggers has no switch *)
+Theorem C05_no_switch_example :
+  no_switch (mkcfg [(1, {| t_filter := Some true; t_depth := Some 2; t_time := None; t_size := None;
+                           t_trace_on := false; t_trace_off := false; t_trace := false; t_caller := true |});
+                    (2, {| t_filter := Some false; t_depth := None; t_time := Some 50; t_size := Some 40;
+                           t_trace_on := false; t_trace_off := false; t_trace := true; t_caller := false |})]
+                   true true 3 10 1024 [] PG).
+Proof. exact no_switch_example. Qed.
+Print Assumptions C05_no_switch_example.
